@@ -3,6 +3,7 @@ Line-protocol handlers of the stream `dbc` (token-level DBC writer/parser model)
 
   dbc write <hex 0|1> <file-json>            → <tokens-json>
   dbc parse <hex 0|1> <tokens-json> [ignored…] → ok <file-json> | err
+  dbc scan x<hex-bytes>                      → kind:<hex-value>@line:col,… (`Scan.scanAll` = VerifScan)
 
 * The JSON payloads contain NO blank (the harness escapes every blank inside JSON strings as
   the escape `\u0020`), because the driver splits a line at blanks.
@@ -17,6 +18,7 @@ import Lean.Data.Json
 import Acme.Core.Dbc
 import Acme.Core.DbcWrite
 import Acme.Core.DbcParse
+import Acme.Core.DbcScan
 
 namespace Acme.Driver.DbcD
 open Lean (Json)
@@ -353,8 +355,40 @@ def handleParse (hex : Bool) (payload : String) : String :=
     | .error .fuel => "err fuel"
     | .error (.syntax _) => "err"
 
+/-! ## `dbc scan`: the byte-level scanner model -/
+
+def hexVal? (c : Char) : Option Nat :=
+  if '0' ≤ c ∧ c ≤ '9' then some (c.toNat - 48)
+  else if 'a' ≤ c ∧ c ≤ 'f' then some (c.toNat - 87)
+  else none
+
+def unhex : List Char → Option (List UInt8)
+  | [] => some []
+  | a :: b :: rest =>
+    match hexVal? a, hexVal? b, unhex rest with
+    | some x, some y, some r => some (UInt8.ofNat (16 * x + y) :: r)
+    | _, _, _ => none
+  | _ => none
+
+def hexDigit (n : Nat) : Char := if n < 10 then Char.ofNat (48 + n) else Char.ofNat (87 + n)
+
+def hexOf (bs : List UInt8) : String :=
+  String.ofList (bs.flatMap (fun b => [hexDigit (b.toNat / 16), hexDigit (b.toNat % 16)]))
+
+def showPTok (t : Scan.PTok) : String :=
+  t.kind.name ++ ":" ++ hexOf t.valueBytes ++ "@" ++ toString t.pos.line ++ ":" ++ toString t.pos.col
+
+def handleScan (payload : String) : String :=
+  match payload.toList with
+  | 'x' :: hs =>
+    match unhex hs with
+    | some bs => ",".intercalate ((Scan.scanAll bs).map showPTok)
+    | none => "bad-op hex"
+  | _ => "bad-op hex"
+
 def handle (args : List String) : String :=
   match args with
+  | "scan" :: payload :: _ => handleScan payload
   | "write" :: h :: payload :: _ =>
     match hexFlag h with
     | some hex => handleWrite hex payload
